@@ -32,6 +32,8 @@ def _match(spec, uid):
         return isinstance(uid, tuple) and len(uid) == 3 and uid[0] == 'PKT' and uid[2] == spec[1]
     if isinstance(uid, tuple) and len(uid) == 3 and uid[0] == 'PKT':
         return uid[1] == spec
+    if isinstance(uid, tuple) and len(uid) == 3 and uid[0] == 'PI':
+        return isinstance(uid[2], tuple) and len(uid[2]) >= 1 and uid[2][0] == spec
     return isinstance(uid, tuple) and len(uid) >= 1 and uid[0] == spec
 
 
